@@ -6,7 +6,10 @@ use std::rc::Rc;
 use std::sync::Arc;
 use std::time::Duration;
 
+#[cfg(not(fastrace_verif))]
 use fastant::Instant;
+#[cfg(fastrace_verif)]
+use crate::verif::clock::Instant;
 
 use crate::Event;
 use crate::collector::CollectTokenItem;
